@@ -38,6 +38,14 @@ CHECKS = {
          "Generated-schedule search over all interleavings expressible at event-loop granularity; the end-state liveness clause is decided in the bounded form 'input stopped, consumer free, loop idle => newest delivered', sound on a harness-owned single-threaded loop. Exploration only.",
          "Trusted: virtual loop; provenance ids identify elements.",
          "DESIGN.md section 4 C14"),
+ "C13": ("Hypothesis-generated arrival-time patterns (idle gaps, bursts, 1-3 concurrent producers, slow/instant consumers) on a virtual clock; exact-arithmetic oracle on delivery timestamps, order and count",
+         "Generated-schedule search on a virtual clock with exact grid arithmetic (no tolerance, no flakiness): spacing >= interval, FIFO order, nothing lost, no needless delay on an idle line; delay: order and count. Exploration only.",
+         "Trusted: virtual loop/clock; delivery instant = the instant the consumer function is called.",
+         "DESIGN.md section 4 C13"),
+ "C08": ("Hypothesis-generated arrival patterns around tick/timeout instants with generated consumer busy periods on a virtual clock; conservation/order/size/deadline/spurious-partial oracles over the (virtual time, batch) log",
+         "Generated-schedule search on a virtual clock: coincidences (arrival exactly at a tick, during a blocked emission, size flush racing the timer) are generated, not hoped for. Exploration only.",
+         "Trusted: virtual loop/clock; busy time measured from the consumer's start/finish log.",
+         "DESIGN.md section 4 C08"),
 }
 NOT_YET = "check not built yet in this session (the property is decidable with this technique; see DESIGN.md section 4)"
 
